@@ -1,13 +1,13 @@
 (* C13 -- Posterior samples are exact affine images of the normal draws.
    Model/Sample.v: MarkovSequence.sample (shape = ()) per block: the initial
-   (terminal if reverse) sample  m0 + (L0 z0)[:, None]  followed by the scan
-   x <- cond.apply_flat(x).mean + (L z)[:, None]  over the stored conditionals
+   (terminal if reverse) sample  m0 + L0 z0  followed by the scan
+   x <- cond.apply_flat(x).mean + L z  over the stored conditionals
    (with their diagonal scalings to_latent / to_observed); the Cholesky factors
    L are inputs (ANY matrices; the Gram theorems assume L L^T = to Q to), the
    draws are inputs, consumed in list order (key splitting).  One block covers
-   dense (n = (q+1)d, c = 1), isotropic (n = q+1, c = d: the SAME draw of length
-   n is applied to all d columns) and every block of the block-diagonal model
-   (n = q+1, c = 1, own draws).  back_marginals / seq_marginals = iterated
+   dense (n = (q+1)d, c = 1, draws n x 1), isotropic (n = q+1, c = d, draws
+   n x d: one independent column per state dimension) and every block of the
+   block-diagonal model (n = q+1, c = 1, own draws).  back_marginals / seq_marginals = iterated
    c_marg = MarkovSequence.evaluate_marginals (solution.u of the smoothers, see
    C13_marginals_are_the_solver_marginals).  All statements: arbitrary field,
    all shapes, all chain lengths, all matrices (any lists), all scalings. *)
@@ -25,8 +25,8 @@ Section C13.
     forall n c (term : @normal F) (L0 : @mat F) (conds : list (@cond F)) (Ls : list (@mat F))
            (z0 : @mat F) (zs : list (@mat F)),
       length Ls = length conds -> length zs = length conds ->
-      (forall i, i < n -> mget z0 i 0 = f0) ->
-      Forall (fun z => forall i, i < n -> mget z i 0 = f0) zs ->
+      (forall i a, i < n -> a < c -> mget z0 i a = f0) ->
+      Forall (fun z => forall i a, i < n -> a < c -> mget z i a = f0) zs ->
       markov_sample true n c (n_mean term) L0 conds Ls (z0 :: zs)
       = Some (map (fun rv => canon n c (n_mean rv)) (back_marginals n c conds term)).
   Proof. exact zero_draws_give_backward_means. Qed.
@@ -36,8 +36,8 @@ Section C13.
     forall n c (init : @normal F) (L0 : @mat F) (conds : list (@cond F)) (Ls : list (@mat F))
            (z0 : @mat F) (zs : list (@mat F)),
       length Ls = length conds -> length zs = length conds ->
-      (forall i, i < n -> mget z0 i 0 = f0) ->
-      Forall (fun z => forall i, i < n -> mget z i 0 = f0) zs ->
+      (forall i a, i < n -> a < c -> mget z0 i a = f0) ->
+      Forall (fun z => forall i a, i < n -> a < c -> mget z i a = f0) zs ->
       markov_sample false n c (n_mean init) L0 conds Ls (z0 :: zs)
       = Some (map (fun rv => canon n c (n_mean rv)) (seq_marginals false n c conds init)).
   Proof. exact zero_draws_give_forward_means. Qed.
@@ -51,20 +51,20 @@ Section C13.
            (z0 : @mat F) (zs : list (@mat F)),
       length Ls = length conds -> length zs = length conds ->
       exists s0 sl,
-        markov_sample reverse n c m0 L0 conds Ls (zeros_like n (z0 :: zs)) = Some s0 /\
+        markov_sample reverse n c m0 L0 conds Ls (zeros_like n c (z0 :: zs)) = Some s0 /\
         markov_sample reverse n c (mzero n c) L0 (map (c_nooff n c) conds) Ls (z0 :: zs) = Some sl /\
         markov_sample reverse n c m0 L0 conds Ls (z0 :: zs) = Some (zipw (madd n c) s0 sl).
   Proof. exact sample_is_affine. Qed.
 
   (* T13.2b the linear part is the block matrix rev_rows: sample k (time order)
-     = (sum_t W_{k,t} z_t)[:, None] over the draws in time order, with
+     = sum_t W_{k,t} z_t over the draws (n x c matrices) in time order, with
      W_{k,t} = G_k ... G_{t-1} L_t (t >= k), 0 (t < k), G = plain gain *)
   Theorem C13_posterior_linear_map_is_rev_rows :
     forall n c (L0 : @mat F) (conds : list (@cond F)) (Ls : list (@mat F))
            (z0 : @mat F) (zs : list (@mat F)),
       length Ls = length conds -> length zs = length conds ->
       markov_sample true n c (mzero n c) L0 (map (c_nooff n c) conds) Ls (z0 :: zs)
-      = Some (map (fun row => bcast n c (wsum n row (rev zs ++ [z0])))
+      = Some (map (fun row => wsum n c row (rev zs ++ [z0]))
                   (rev_rows n (combine conds Ls) L0)).
   Proof. exact reverse_sample_linear_map. Qed.
 
@@ -118,7 +118,7 @@ Section C13.
            (z0 : @mat F) (zs : list (@mat F)),
       length Ls = length conds -> length zs = length conds ->
       markov_sample false n c (mzero n c) L0 (map (c_nooff n c) conds) Ls (z0 :: zs)
-      = Some (zipw (fun row zr => bcast n c (wsum n row zr))
+      = Some (zipw (fun row zr => wsum n c row zr)
                    ([L0] :: fwd_rows_from n [L0] (combine conds Ls))
                    ([z0] :: fwd_draws [z0] zs)).
   Proof. exact forward_sample_linear_map. Qed.
@@ -153,29 +153,46 @@ Section C13.
       = back_marginals (sh_N s) (sh_c s) (map (fun K => nth a K dc) conds) (nth a term dn).
   Proof. exact solver_backward_marginals_blockwise. Qed.
 
-  (* Isotropic model, d >= 2: every column of the linear part is the same ... *)
-  Theorem C13_isotropic_columns_share_the_draw :
+  (* Isotropic layout (c = d columns = state dimensions): column a of every
+     sample of the linear part is the SAME block matrix rev_rows applied to
+     column a of the draws alone: the dimensions share the map, not the noise ... *)
+  Theorem C13_isotropic_columns_are_independent :
     forall n c (L0 : @mat F) (conds : list (@cond F)) (Ls : list (@mat F))
            (z0 : @mat F) (zs : list (@mat F)) xs,
       length Ls = length conds -> length zs = length conds ->
       markov_sample true n c (mzero n c) L0 (map (c_nooff n c) conds) Ls (z0 :: zs) = Some xs ->
-      forall x, In x xs -> forall i a b, i < n -> a < c -> b < c -> mget x i a = mget x i b.
-  Proof. exact linear_part_columns_identical. Qed.
+      forall a, a < c ->
+      map (mcol n a) xs
+      = map (fun row => wsum n 1 row (map (mcol n a) (rev zs ++ [z0])))
+            (rev_rows n (combine conds Ls) L0).
+  Proof. exact sample_columns_independent. Qed.
 
-  (* ... hence the Gram matrix of the map draws -> flattened (n x c) state has
-     the entry Cov[i,i] between two different columns a <> b, where the isotropic
-     law Cov (x) I_c (to_multivariate_normal, logpdf) has 0: the faithful model
-     of IsotropicNormal.sample_flat REFUTES "Gram = joint covariance" for d >= 2
-     (finding; per-column Gram blocks are right by the theorems above) *)
-  Theorem C13_isotropic_cross_dimension_gram_refuted :
+  (* ... so, with C13_posterior_gram_is_joint_covariance for the common block
+     matrix, the Gram matrix over the flattened n x c state is (joint covariance)
+     (x) I_c.  Written out for one sample_flat with the unit draws e_{l,b}:
+     sum_{l,b} M[(i,a),(l,b)] M[(i',a'),(l,b)] = (L L^T)[i,i'] * [a = a'] *)
+  Theorem C13_sample_flat_gram_is_cov_kron_identity :
+    forall n c (L : @mat F) i i' a a',
+      i < n -> i' < n -> a < c -> a' < c ->
+      vsum n (fun l => vsum c (fun b =>
+        fmul (mget (n_sample n c (mzero n c) L (unit_draw n c l b)) i a)
+             (mget (n_sample n c (mzero n c) L (unit_draw n c l b)) i' a')))
+      = fmul (mget (mmul n n n L (mtr n n L)) i i') (delta a a').
+  Proof. exact sample_flat_gram_is_kronecker. Qed.
+
+  (* Documentation of the repaired defect (/repo 3219804, finding
+     C13.iso.gram.cross-dimension): the former IsotropicNormal.sample_flat
+     (n_sample_shared: ONE draw of length n broadcast to all c columns) has the
+     Gram entry Cov[i,i] between two different columns, where Cov (x) I_c has 0 *)
+  Theorem C13_shared_draw_variant_cross_dimension_gram_refuted :
     exists (n c : nat) (L0 Cov : @mat F) (i a b : nat),
       i < n /\ a < c /\ b < c /\ a <> b /\
       mmul n n n L0 (mtr n n L0) = canon n n Cov /\
-      vsum n (fun l => fmul (mget (n_sample n c (mzero n c) L0 (unit_col n l)) i a)
-                            (mget (n_sample n c (mzero n c) L0 (unit_col n l)) i b))
+      vsum n (fun l => fmul (mget (n_sample_shared n c (mzero n c) L0 (unit_draw n 1 l 0)) i a)
+                            (mget (n_sample_shared n c (mzero n c) L0 (unit_draw n 1 l 0)) i b))
       = mget Cov i i /\
       mget Cov i i <> f0.
-  Proof. exact iso_cross_dimension_gram_refuted. Qed.
+  Proof. exact shared_draw_cross_dimension_gram_refuted. Qed.
 End C13.
 
 Print Assumptions C13_zero_draws_give_smoothing_means.
@@ -189,5 +206,6 @@ Print Assumptions C13_prior_linear_map_is_fwd_rows.
 Print Assumptions C13_prior_gram_diagonal_blocks.
 Print Assumptions C13_prior_gram_adjacent_block_partial.
 Print Assumptions C13_marginals_are_the_solver_marginals.
-Print Assumptions C13_isotropic_columns_share_the_draw.
-Print Assumptions C13_isotropic_cross_dimension_gram_refuted.
+Print Assumptions C13_isotropic_columns_are_independent.
+Print Assumptions C13_sample_flat_gram_is_cov_kron_identity.
+Print Assumptions C13_shared_draw_variant_cross_dimension_gram_refuted.
